@@ -92,7 +92,8 @@ WORDS = ["inf", "nan", "Infinity", "-inf", "NaN", "1e5", "1E400", "1_000",
 ODD = ["١٢٣", "１２", "²", "é", "ß",
        "İ", "\x00", " ", "​", "\U0001d7d8", "१",
        "½", "﻿", "٠"]
-SEPS = [" ", " ", " ", "-", "/", ".", ":", ",", "T", "+", "-", "", "", "  "]
+SEPS = [" ", " ", " ", "-", "/", ".", ":", ",", "T", "+", "-", "", "", "  ",
+        "\r\n", "\n", "\t"]
 
 
 def digit_run(rng):
